@@ -103,7 +103,50 @@ def run_r1(ctx, rule):
             n_sites += 1
             ff = guards.holds(cf, bb, lambda fa: (guards.cmp_matches(fa, "Lt", lambda x: x == ("f", ("l", 1), "valid_len"), lambda x: x[0] == "l" and 2 <= x[1] <= cf.argc)
                                                    or guards.cmp_matches(fa, "Le", lambda x: x == ("f", ("l", 1), "valid_len"), lambda x: x[0] == "l" and 2 <= x[1] <= cf.argc)))
-            rule.check(bool(ff), "%s/refill-guard" % short(norm(cid)), "%s refills only when the buffered data does not satisfy the request (%s)" % (short(norm(cid)), guards.show_fact(cf, ff[1]) if ff else "guard not found"), cf.loc(bb))
+            how = guards.show_fact(cf, ff[1]) if ff else None
+            if not ff and not cf.j.get("reachable_pub"):
+                # `loop { refill; if enough { break } }` in a private helper: the first refill is justified by the callers
+                # (all of them hand over only when their own, unchanged argument is not satisfied -- checked below), and
+                # every later one by the test on the way back to the call
+                is_short = lambda fa: (guards.cmp_matches(fa, "Lt", lambda x: x == ("f", ("l", 1), "valid_len"), lambda x: x[0] == "l" and 2 <= x[1] <= cf.argc)
+                                       or guards.cmp_matches(fa, "Le", lambda x: x == ("f", ("l", 1), "valid_len"), lambda x: x[0] == "l" and 2 <= x[1] <= cf.argc))
+                cc = cfg(cf)
+                cut = set()
+                for sb in range(len(cf.blocks)):
+                    if cf.blocks[sb]["cleanup"] or cf.term(sb)["k"] != "switch":
+                        continue
+                    es = guards.switch_edges(cf, sb)
+                    if any(is_short(fa) for tgt, fa in es):
+                        # only the edge on which the data falls short may lead back to the refill
+                        for tgt, fa in es:
+                            if not is_short(fa):
+                                cut.add((sb, tgt))
+                            else:
+                                cut.add((sb, None))  # marks sb as a test block
+                tests = set(sb for sb, _ in cut)
+                # is there a cycle from the call back to itself that avoids every test block?
+                seen, st = set(), list(cf.succs(bb))
+                cyc = False
+                while st:
+                    x = st.pop()
+                    if x in seen or x in tests:
+                        continue
+                    seen.add(x)
+                    if x == bb:
+                        cyc = True
+                        break
+                    st.extend(cf.succs(x))
+                # and from a test block only its falls-short edge may reach the call again
+                leak = False
+                for sb in tests:
+                    for tgt, fa in guards.switch_edges(cf, sb):
+                        if not is_short(fa) and bb in cc.reachable_from(tgt, avoid=list(tests)):
+                            leak = True
+                callers = [(f2, b2) for f2 in facts.fns.values() if f2.crate not in ("ext", "promoted") for b2, t3 in f2.calls() if norm(util.cname(t3)) == norm(cid)]
+                if tests and not cyc and not leak and callers:
+                    ff = True
+                    how = "first refill justified by the %d guarded hand-over(s), later ones by the falls-short test in the loop" % len(callers)
+            rule.check(bool(ff), "%s/refill-guard" % short(norm(cid)), "%s refills only when the buffered data does not satisfy the request (%s)" % (short(norm(cid)), how or "guard not found"), cf.loc(bb))
     # ... and the same holds one level up: a reader function that hands over to a refilling helper does so only when
     # its own argument is not satisfied, and passes that argument on unchanged
     refillers = set(norm(cid) for cid, cf in facts.fns.items() if cf.crate not in ("ext", "promoted") and norm(cid).startswith(DR) and norm(cid) != home and util.calls_in(cf, lambda n: n == home))
